@@ -936,6 +936,23 @@ func (c *FnCtx) execInstr(st *State, b *ssa.BasicBlock, in ssa.Instruction) bool
 				if cl.AtOrd > 0 && c.callSiteOrdinal(in, cl.At) != cl.AtOrd {
 					continue
 				}
+				// a prefix that ends with "name(" speaks about calls of that function or method only
+				// (x.Mutable(fd).Message() also starts with "x.Mutable(" but is a call of Message)
+				if strings.HasSuffix(cl.At, "(") {
+					nm := strings.TrimSuffix(cl.At, "(")
+					if k := strings.LastIndexAny(nm, ".)]"); k >= 0 {
+						nm = nm[k+1:]
+					}
+					callee := ""
+					if in.Call.IsInvoke() {
+						callee = in.Call.Method.Name()
+					} else if f := in.Call.StaticCallee(); f != nil {
+						callee = f.Name()
+					}
+					if nm != "" && callee != "" && !strings.Contains(callee, "$") && callee != nm {
+						continue
+					}
+				}
 				c.callAsserts[i]++
 				name := cl.Name
 				if name == "" {
